@@ -13,8 +13,8 @@ PLAN = {
         vacuity=[("lit_finish_exit", ["FixRecv"])],
     ),
     "C02": dict(
-        quick=[("tree4", dict(cap=2500)), "ids:600"],
-        thorough=["tree4", "tree5", "ids:600", ("tree6", dict(cap=20000, timeout=2400)), ("sim_tree", dict(cap=6000))],
+        quick=[("tree4", dict(cap=2500)), ("scope_deep", dict(cap=2500)), "ids:600"],
+        thorough=["tree4", "tree5", "scope_deep", "ids:600", ("tree6", dict(cap=20000, timeout=2400)), ("sim_tree", dict(cap=6000))],
         vacuity=[("tree4", [], "skip-second-copy")],
     ),
     "C03": dict(
@@ -29,14 +29,14 @@ PLAN = {
         vacuity=[("lit_overflow_cancel", ["FixFifo"]), ("cancel4_d", ["FixCancelDefault"])],
     ),
     "C05": dict(
-        quick=[("smp4", dict(cap=1500)), ("smp_mixed", dict(cap=2500))],
-        thorough=["smp4", "smp_mixed", ("smp5", dict(cap=20000, timeout=2400))],
+        quick=[("smp4", dict(cap=1500)), ("smp_mixed", dict(cap=2500)), "poll_under_lp"],
+        thorough=["smp4", "smp_mixed", "poll_under_lp", ("smp5", dict(cap=20000, timeout=2400))],
         vacuity=[("smp_mixed", [], "mark-all-sampled")],
     ),
     "C06": dict(
-        quick=[("att4", dict(cap=1500)), ("att4_c", dict(cap=800)), ("lit_attach_other", dict(cap=800)), ("twin4", dict(cap=600)), ("latt_deep", dict(cap=2000)),
+        quick=[("att4", dict(cap=1500)), ("att4_c", dict(cap=800)), ("lit_attach_other", dict(cap=800)), ("twin4", dict(cap=600)), ("latt_deep", dict(cap=2000)), "att_mixed", "att_mixed_r", "dup:1",
                ("stress:att4", dict(rounds=200, threads=6))],
-        thorough=["att4", "att5", "att4_c", "lit_attach_other", "twin4", "latt_deep", ("sim_att", dict(cap=6000))],
+        thorough=["att4", "att5", "att4_c", "lit_attach_other", "twin4", "latt_deep", "att_mixed", "att_mixed_r", "dup:1", ("sim_att", dict(cap=6000))],
         vacuity=[("att4", [], "drain-danglings")],
     ),
     "C07": dict(
@@ -55,12 +55,12 @@ PLAN = {
     "C09": dict(
         quick=[("over5_d", dict(cap=800, shuffle=3)), ("over5_c", dict(cap=800, shuffle=3)), ("lit_overflow_cancel", dict(cap=500, shuffle=6)),
                ("lit_overflow_finish", dict(cap=500, shuffle=4)), ("lit_overflow_finish_c", dict(cap=500, shuffle=4)),
-               ("qlimit5", dict(cap=4000)), ("scope_q1", dict(cap=1500))],
-        thorough=["over5_d", "over5_c", "over6_c", "lit_overflow_finish", "lit_overflow_finish_c", "lit_overflow_cancel", "qlimit5"],
+               ("qlimit5", dict(cap=4000)), ("scope_q1", dict(cap=1500)), ("slimit5", dict(cap=3000))],
+        thorough=["over5_d", "over5_c", "over6_c", "lit_overflow_finish", "lit_overflow_finish_c", "lit_overflow_cancel", "qlimit5", "slimit5"],
         vacuity=[("over5_d", ["FixForceStart"]), ("over5_d", ["FixFifo"])],
     ),
     "C10": dict(
-        quick=[("scope5", dict(cap=2000)), ("scope_q1", dict(cap=3000)), ("scope_qfull", dict(cap=800)), ("scope_smp", dict(cap=2500))],
+        quick=[("scope5", dict(cap=2000)), ("scope_q1", dict(cap=3000)), ("scope_qfull", dict(cap=800)), ("scope_smp", dict(cap=2500)), ("scope_deep", dict(cap=2500))],
         thorough=["scope5", ("scope6", dict(cap=20000)), "scope_q1", "scope_qfull", "scope_smp", ("scope_smp6", dict(cap=20000, timeout=1200))],
         vacuity=[("scope5", [], "no-restore")],
     ),
@@ -91,8 +91,8 @@ PLAN["C14"] = dict(
     vacuity=[("poll_str_c", ["FixInSpan"])],
 )
 PLAN["C16"] = dict(
-    quick=[("notready4", dict(cap=1200)), ("disabled4", dict(cap=1200)), ("hostile4", dict(cap=800))],
-    thorough=["notready4", "disabled4", "hostile4", "hostile5"],
+    quick=[("notready4", dict(cap=1200)), ("disabled4", dict(cap=1200)), ("hostile4", dict(cap=800)), "lazy_smp"],
+    thorough=["notready4", "disabled4", "hostile4", "hostile5", "lazy_smp"],
     vacuity=[("notready4", [], "root-ignores-ready")],
     needs_off=True,
 )
